@@ -48,7 +48,7 @@ def step (S : Spec) (V : Env) (validVer : Nat â†’ Bool) (rootAttrs : List (Nat Ã
   | ["remove", p, c] => match E p, E c with
     | some p, some c => some (applyOp S V rootAttrs w (.remove p c)) | _, _ => some (w, "bad-op")
   | ["rename", x, nm] => match E x, bytesOfHex nm with
-    | some x, some nm => some (sh (opRename S V w x nm)) | _, _ => some (w, "bad-op")
+    | some x, some nm => some (applyOpX S V rootAttrs w (.rename x nm)) | _, _ => some (w, "bad-op")
   | ["cdata", x, v] => match E x, parseVal v with
     | some x, some v => some (applyOp S V rootAttrs w (.cdata x v)) | _, _ => some (w, "bad-op")
   | ["rmcdata", x] => match E x with
@@ -74,10 +74,10 @@ def step (S : Spec) (V : Env) (validVer : Nat â†’ Bool) (rootAttrs : List (Nat Ã
   | ["copy", p, x, q] => match E p, E x, q.toNat? with
     | some p, some x, some q => some (sh (opCopy S V w p x (some q))) | _, _, _ => some (w, "bad-op")
   | ["sort", x] => match E x with
-    | some x => some (sh (opSort S V w x)) | none => some (w, "bad-op")
+    | some x => some (applyOpX S V rootAttrs w (.sort x)) | none => some (w, "bad-op")
   | ["sortm", m] => match M m with
     | some k => match w.models[k]? with
-      | some mm => some (sh (opSort S V w mm.rootHdr.id))
+      | some mm => some (applyOpX S V rootAttrs w (.sort mm.rootHdr.id))
       | none => some (w, "bad-op")
     | none => some (w, "bad-op")
   | ["comment", x, h] => match E x with
